@@ -165,6 +165,9 @@ def monitor_one_owner(results):
         if kind == "create":
             rel[run], rsm[run], pend[run] = 0, 0, 0
         elif kind == "begin" and r:
+            if pend.get(run, 0):
+                out.append("op %d: begin_release succeeded for run %d although a release is already pending "
+                           "(two releasers own it)" % (k, run))
             rel[run] = rel.get(run, 0) + 1
             pend[run] = 1
         elif kind == "resume" and r == RunLifecycleState.released:
